@@ -439,6 +439,37 @@ theorem reaction_line_spec (pr : Printer) (rxn : List Char) (p : Param) (ptext :
 theorem default_precisions_guard : defaultPrecision = 5 ∧ defaultUncertPrecision = 2 ∧ strMagnitudePrecision = 3 := by
   decide
 
+/-! ## `fmt` given as a callback -/
+
+/-- **callback_text_spec.** With a callable `fmt` the text `T` the callback returned is post-processed exactly like `%g` output:
+* no `e` in `T`: the result is `T` followed by the unit suffix;
+* `T = sig ++ "e" ++ man` with a single `e`: if `int(man) = n` the power-of-ten renderer gets the significand text `sig` and the integer `n`
+  (so `1.0e+05` from `'%.1e'` is printed as a bare `10^5`: `omitted_iff_one` covers the spelling `"1.0"`), the unit suffix follows; if `man`
+  is not an integer text the call is refused with ValueError;
+* two `e`s: refused with ValueError (`significand, mantissa = flt.split("e")` cannot unpack). -/
+theorem callback_text_spec (f : Fmt) (unit : Option (List Char)) :
+    (∀ t, 'e' ∉ t → numberToXCallback f t unit = .ok (t ++ unitSuffix f unit)) ∧
+    (∀ sig man n, 'e' ∉ sig → 'e' ∉ man → parseInt man = some n →
+      numberToXCallback f (sig ++ 'e' :: man) unit = (powTenE f sig n >>= fun b => pure (b ++ unitSuffix f unit))) ∧
+    (∀ sig man, 'e' ∉ sig → 'e' ∉ man → parseInt man = none →
+      numberToXCallback f (sig ++ 'e' :: man) unit = .error "ValueError") ∧
+    (∀ a b c, 'e' ∉ a → 'e' ∉ b → 'e' ∉ c →
+      numberToXCallback f (a ++ 'e' :: (b ++ 'e' :: c)) unit = .error "ValueError") := by
+  refine ⟨fun t ht => renderX_fixed f t _ ht, ?_, ?_, ?_⟩
+  · intro sig man n hs hm hp
+    unfold numberToXCallback renderX
+    rw [splitOn_one _ _ _ hs hm]
+    simp only [powTen, hp]
+  · intro sig man hs hm hp
+    unfold numberToXCallback renderX
+    rw [splitOn_one _ _ _ hs hm]
+    simp only [powTen, hp]
+    rfl
+  · intro a b c ha hb hc
+    unfold numberToXCallback renderX
+    rw [splitOn_first _ _ _ ha, splitOn_one _ _ _ hb hc]
+    rfl
+
 /-! ## the per-substance HTML table -/
 
 /-- **table_positional_cell.** Data given positionally (list, tuple, array): for distinct substance keys the value looked up for
@@ -504,6 +535,14 @@ example : floatStrWUncert (-999752) 349 3 = .ok "-999752(349)".toList ∧
 example : perSubstanceTable [("H2O".toList, "H<sub>2</sub>O".toList), ("H+".toList, "H<sup>+</sup>".toList)]
     (.positional [⟨277 / 5, some "M".toList⟩, ⟨35 / 10, some "mM".toList⟩]) "c".toList
     = .ok "<table><tr><th>Substance</th>\n<th>c</th></tr>\n<tr><td>H<sub>2</sub>O</td>\n<td>55.4 M</td></tr>\n<tr><td>H<sup>+</sup></td>\n<td>3.5 mM</td></tr></table>".toList := by
+  decide +kernel
+
+/-- callbacks: `'%.1e' % 1e5` → bare power (the `"1.0"` spelling), `'%.2f'` text unchanged + unit, malformed texts refused -/
+example : numberToXCallback .latex "1.0e+05".toList none = .ok "10^{5}".toList ∧
+    numberToXCallback .html "3.14".toList (some "m/s".toList) = .ok "3.14 m/s".toList ∧
+    numberToXCallback .unicode "2.50e-07".toList none = .ok "2.50·10⁻⁷".toList ∧
+    numberToXCallback .latex "1.5ex".toList none = .error "ValueError" ∧
+    numberToXCallback .latex "1e5e3".toList none = .error "ValueError" := by
   decide +kernel
 
 example : roman 1994 = "MCMXCIV".toList ∧ roman 17 = "XVII".toList ∧ roman 0 = [] := by decide +kernel
